@@ -25,6 +25,7 @@ def body_deductive(rep):
 PARSE_BODY = ['visitPredicateexpression', 'visitSimplepredicate', 'visitTermpredicate']
 PARSE_TERM = ['visitTerm', 'visitAtom', 'visitFunctor', 'visitTermlist']
 PARSE_CLAUSE = ['visitClause']
+PARSE_PROGRAM = ['visitClauseordirective', 'visitProgram']
 
 
 def parse_deductive(rep, funs=None):
@@ -32,10 +33,10 @@ def parse_deductive(rep, funs=None):
     Bodies (C06, C05, C12): ',' conjunction, '->' if-then, ';' disjunction, '\\+' negation, parentheses transparent, a goal is
     never the internal $CUTIF marker.  Terms (C16, C01): every literal form denotes its term, `_` are numbered left to right."""
     from ..pyvc.theory_visitor import ParseTheory
-    fw.deductive(rep, ['yp_prolog_visitor.YPPrologVisitor.' + f for f in (funs or PARSE_BODY + PARSE_TERM + PARSE_CLAUSE)],
+    fw.deductive(rep, ['yp_prolog_visitor.YPPrologVisitor.' + f for f in (funs or PARSE_BODY + PARSE_TERM + PARSE_CLAUSE + PARSE_PROGRAM)],
                  ['visitor_parse'], ['control.smt2', 'parse.smt2'], theory=ParseTheory)
     fw.add_smt(rep, lemmas.prove_parse_lemmas(), 'spec.parse-lemmas')
-    rep.lemmas.append('L-TCNT-NONNEG, L-PECNT-NONNEG: lemmas of spec/parse.smt2 by induction (SMT)')
+    rep.lemmas.append('L-TCNT-NONNEG, L-PECNT-NONNEG, L-PG-KEYS-COVER (every clause head key is a dictionary key), L-PG-KEYS-NODUP (no key twice): lemmas of spec/parse.smt2 by induction (SMT)')
     rep.assumptions.append('A-EXT-ANTLR (visitor): the parse tree is a derivation of prolog.g4 (datatypes TT/SP/PE of spec/parse.smt2: one '
                            'constructor per alternative, token texts in their lexer classes); terms of the forms name/arity and '
                            'numeral(...) are outside the contracts (the compiler rejects them with an AttributeError: observed, bounded); '
